@@ -436,3 +436,18 @@ Definition check_109 (fs : list field) : verdict :=
     end
   | _ => VBad 99 []
   end.
+
+(* ---- 110: Children with the Path of each child, in every storage mode (StoreChildrenById / ByHash / neither): the
+   non-empty entries, ordered by start offset by the harness, are the model's children in wire order: (step, type, span) ---- *)
+Definition check_110 (fs : list field) : verdict :=
+  match fs with
+  | FZ t :: FB bs :: FZ ob :: FZ st :: FZ n :: rest =>
+    match decode_all t bs with
+    | None => VSkip
+    | Some v =>
+      if negb (wf v) then VSkip else
+      let exp := items_of v in
+      expect 1 ((st =? 0) && (n =? zlen exp) && match_items false 0 exp rest) (FZ (zlen exp) :: flat_items exp)
+    end
+  | _ => VBad 99 []
+  end.
